@@ -33,6 +33,7 @@ func init() {
 			{ID: "C07.R16", Floor: 3, Run: indexMapValuesArePositions, Text: "the archetype → position map holds positions: every Indices[k] = v has v = the range index of k, the index k was read from, or Len()-1 right after Add(k)"},
 			{ID: "C07.R17", Floor: 2, Run: handleParamsReadOnly, Text: "registered-filter handles are read-only (= C10.R13)"},
 			{ID: "C07.R18", Floor: 2, Run: growKeepsLength, Text: "growth keeps the length: in `new := make(T, L, C); copy(new, old)` L is len(old); a truncated id pool issues a filter id twice"},
+			{ID: "C07.R19", Floor: 10, Run: freshRelationFilterPerCall, Text: "generic FilterN.Filter hands out a relation filter of its own for a per-call target (= C18.R22): a registered relation filter keeps its target"},
 		},
 	})
 }
